@@ -291,6 +291,7 @@ type c16Request struct {
 	Cred       bool
 	Remote     string
 	TLS        bool
+	HTTP10     bool   // HTTP/1.0 request without a Host header (legal)
 	Flow       string // "" | "callback" (headers on the callback only) | "login" (headers on start and callback)
 	Full       bool   // full product of header assignments
 	Class      string // expected class of the baseline (reference, from the documentation)
@@ -325,6 +326,13 @@ func c16Requests(cfg *c16Config) []*c16Request {
 
 	add("protected", c16Protected, full)
 	add("protected+cred", c16Protected, fullCred)
+	// unusual but legal transports: a unix-socket listener reports the peer as "@"; an HTTP/1.0
+	// client may send no Host header at all
+	add("protected@unix-socket-peer", c16Protected, func(r *c16Request) { r.Remote = "@" })
+	add("auth@unix-socket-peer", "/oauth2/auth", func(r *c16Request) { r.Remote = "@" })
+	add("protected@http10-no-host", c16Protected, func(r *c16Request) { r.Host = ""; r.HTTP10 = true })
+	add("start@http10-no-host", "/oauth2/start?rd=%2Fprivate%2Fpage", func(r *c16Request) { r.Host = ""; r.HTTP10 = true })
+	add("sign_out@http10-no-host", "/oauth2/sign_out?rd=%2Fafter", func(r *c16Request) { r.Host = ""; r.HTTP10 = true })
 	if cfg.Trusted {
 		add("protected@trusted-remote", c16Protected, func(r *c16Request) { r.Remote = c16TrustedRemote; r.Full = true })
 		add("auth@trusted-remote", "/oauth2/auth", trusted)
@@ -699,7 +707,7 @@ func (e *c16Env) run(px *Proxy, cfg *c16Config, rq *c16Request, lines [][2]strin
 	e.up.Take()
 	mark := len(e.idp.Calls)
 	if rq.Flow == "" {
-		r := &world.Req{Method: "GET", Target: rq.Target, Host: rq.Host, Remote: rq.Remote}
+		r := &world.Req{Method: "GET", Target: rq.Target, Host: rq.Host, Remote: rq.Remote, HTTP10: rq.HTTP10}
 		if rq.Method != "" {
 			r.Method = rq.Method
 		}
